@@ -10,11 +10,11 @@ use serde_json::{Value as Json, json};
 pub struct C19Prop;
 pub static C19: C19Prop = C19Prop;
 
-pub const PATHS: [&str; 24] = [
+pub const PATHS: [&str; 26] = [
     "literal", "concat-split", "concat-empty-left", "concat-empty-right", "slice", "slice-step", "collect", "partition-left",
     "partition-right", "filter", "type-filter", "map-identity", "repeat", "through-any-function", "through-union-if",
     "array-element", "tuple-component", "struct-field", "cell-content", "closure-result", "reduce-build", "string-ops",
-    "for-accumulate", "match-bound",
+    "for-accumulate", "match-bound", "map-widened", "user-iterator-widened",
 ];
 
 const PRELUDE: &str = "idf := (x: any) -> any { return x; }; yes := (x: any) -> bool { return true; }; \
@@ -176,6 +176,26 @@ pub fn build(v: &Json, path: &str, salt: usize) -> Option<String> {
         "for-accumulate" => {
             let xs = arr?;
             format!("(() -> any {{ acc := mut any []; for x in {}~ {{ if a: [any] = *acc {{ acc = a + [x]; }} }}; return *acc; }})()", lit::to_text(&json!(xs)))
+        }
+        "map-widened" | "user-iterator-widened" => {
+            // the array is produced by an operator that labels it with a declared element type which
+            // is wider than, and different from, the type a literal of the same content gets
+            let xs = arr?;
+            if xs.is_empty() {
+                return None;
+            }
+            let union = |widen: bool| {
+                let mut ms: Vec<String> = xs.iter().map(|x| lit::type_text(x, widen)).collect();
+                ms.sort();
+                ms.dedup();
+                ms.join("|")
+            };
+            let (exact, wide) = (union(false), union(true));
+            if path == "map-widened" {
+                format!("({t}~ @ (v: {exact}) -> {wide} {{ return v; }} $])")
+            } else {
+                format!("(() -> any {{ k := mut 0; a := {t}; it := () -> (bool, {wide}) {{ i := *k; if i < {} {{ k += 1; return (true, a[i]); }} return (false, a[0]); }}; return it $]; }})()", xs.len())
+            }
         }
         "match-bound" => format!("(() -> any {{ m := match idf({t}) {{ w: any => w, }}; return m; }})()"),
         _ => return None,
@@ -555,7 +575,8 @@ pub fn run(session: &Session) -> i32 {
         json!([]), json!([1]), json!([1, 1]), json!([1, "a"]), json!([[1], []]), json!([[], []]), json!(["a", "b"]),
         json!([lit::float(1.5), 2]), json!("ab"), json!(""), json!(7), lit::float(0.0), lit::float(f64::NAN), json!(true), Json::Null,
         lit::tuple(vec![json!(1), json!([])]), json!({"s": {"a": [1], "b": []}}), json!([lit::float(f64::NAN)]),
-        json!([Json::Null, Json::Null]), json!([[1, "a"], [1]]),
+        json!([Json::Null, Json::Null]), json!([[1, "a"], [1]]), json!([{"s": {"a": 7}}]), json!([{"s": {"a": 7}}, {"s": {"a": 8, "b": "x"}}]),
+        json!([lit::tuple(vec![json!(1), json!("a")])]), json!([{"s": {"a": [1], "b": {"s": {"c": true}}}}]),
     ];
     let mut cases = vec![];
     for v in &basis {
@@ -592,7 +613,7 @@ pub fn run(session: &Session) -> i32 {
         session.run_tapes(&C19, session.tier.of(30_000, 1_500_000), 120, 0);
     }
     session.finish(
-        "pairs (x, y) of first-order values (ints, floats incl. NaN / signed zeros / near-equal values, strings, bools, (), arrays, tuples, structs; nesting <= 3) with equal or nearly equal content (one element changed, int vs float, array vs tuple, extra field ...), each built along one of 24 provenance paths (literal, + concatenation incl. with [], slices, $], partition halves, ? p, ? T, @, [v; n] incl. n = 0, through any-typed functions / union-typed ifs / array, tuple, struct, cell, closure, reduce, for-loop, match-binding positions, string operations); compared with ==, != (both operand orders), as match value candidates, bound to names, through any-typed run-time positions and nested inside arrays/tuples/structs; oracle = structural equality of the JSON models (IEEE for floats, kinds distinct), != its negation, symmetry; a value compared with itself through one name (top level, constant, inside a function body) is equal to itself exactly when it contains no NaN. Identity part: function values, cells and iterators created by 8 kinds of expressions (literals, closure / cell factories, native iterators), handed on along 10 alias paths (any-typed function, array element, tuple component, struct field, closure result, cell content, union-typed if, map result, match binding), compared by ==, !=, inside arrays / tuples / structs, as match value arms, inside function bodies: equal exactly when both operands stem from one creation (all pairs of paths x all kinds swept, 38 hand-written programs incl. self-reference of named functions, recursion, std functions, [f; n]). 20 basis values x all pairs of paths are swept completely. Non-trivial = equal content with different provenance; distinct by the pair of expressions.",
+        "pairs (x, y) of first-order values (ints, floats incl. NaN / signed zeros / near-equal values, strings, bools, (), arrays, tuples, structs; nesting <= 3) with equal or nearly equal content (one element changed, int vs float, array vs tuple, extra field ...), each built along one of 26 provenance paths (literal, + concatenation incl. with [], slices, $], partition halves, ? p, ? T, @, [v; n] incl. n = 0, through any-typed functions / union-typed ifs / array, tuple, struct, cell, closure, reduce, for-loop, match-binding positions, string operations); compared with ==, != (both operand orders), as match value candidates, bound to names, through any-typed run-time positions and nested inside arrays/tuples/structs; oracle = structural equality of the JSON models (IEEE for floats, kinds distinct), != its negation, symmetry; a value compared with itself through one name (top level, constant, inside a function body) is equal to itself exactly when it contains no NaN. Identity part: function values, cells and iterators created by 8 kinds of expressions (literals, closure / cell factories, native iterators), handed on along 10 alias paths (any-typed function, array element, tuple component, struct field, closure result, cell content, union-typed if, map result, match binding), compared by ==, !=, inside arrays / tuples / structs, as match value arms, inside function bodies: equal exactly when both operands stem from one creation (all pairs of paths x all kinds swept, 38 hand-written programs incl. self-reference of named functions, recursion, std functions, [f; n]). 24 basis values x all pairs of paths are swept completely. Non-trivial = equal content with different provenance; distinct by the pair of expressions.",
         false,
         &["provenance expressions are first checked to evaluate to the intended value"],
     )
